@@ -36,11 +36,11 @@ type Model struct {
 	wo         string // real path of the open write file ("" = none)
 	woUndef    bool
 	objFor     func(m *Model, clean string) (*roObj, bool, bool) // (object, handled, exists)
-	strictPath bool                                               // paths are well-formed absolute paths
-	lastEnd    int64                                              // end offset of the last data read (hidden cursors make it state)
-	roOptional bool                                               // ro may or may not be held by the server (after a fault)
-	pre        string                                             // kind of the target before the request (mutating ops)
-	files      map[string][]byte                                  // expected content of files uploaded in this session
+	strictPath bool                                              // paths are well-formed absolute paths
+	lastEnd    int64                                             // end offset of the last data read (hidden cursors make it state)
+	roOptional bool                                              // ro may or may not be held by the server (after a fault)
+	pre        string                                            // kind of the target before the request (mutating ops)
+	files      map[string][]byte                                 // expected content of files uploaded in this session
 }
 
 // kindOf classifies a real path: missing | noparent | file | emptydir | dir
